@@ -81,6 +81,37 @@ Proof.
   eexists. split; reflexivity.
 Qed.
 
+(* ... and the finality guard never refuses the head: a validation of j that begins while every
+   predecessor of j is final and ends without conflict leaves the finality step enabled in every
+   later state in which j is still the head, Unconfirmed and unlocked - no rewind that can still
+   be published covers it.  With the previous theorem: once its predecessors are final a
+   transaction needs at most one more execution, one validation and the finality step. *)
+Theorem C05_head_validation_is_finalisable_partial :
+  forall (b : block) tr1 s0 j n ts s1 tr2 s,
+    run_trace b init tr1 = Some s0 -> j = fidx s0 -> step b s0 (VBegin j n ts) = Some s1 ->
+    run_trace b s1 tr2 = Some s ->
+    fidx s = j -> st s j = Unconfirmed -> cs s j = None -> finished s = false ->
+    exists s', step b s (Finalize j (inc s j) (Nat.max (carried s) (lower s j))) = Some s'.
+Proof. exact head_validation_is_finalisable. Qed.
+
+(* non-vacuity, continuing the witness above: tx 1 is validated at the head and is finalisable *)
+Definition ex_pre : list event := ex_tr1 ++ [XBegin 1 1] ++ ex_tr2 ++ [XEnd 1 1; VClaim 1 Executed 1].
+Definition ex_post : list event := [VCheck 1 0 (Some (0, 1)) false; VScanned 1 false; VStatus 1 false 3; VEnd 1].
+Example C05_head_validation_witness :
+  exists s0 s1 s, run_trace ex_b init ex_pre = Some s0 /\ fidx s0 = 1 /\ step ex_b s0 (VBegin 1 1 3) = Some s1 /\
+                  run_trace ex_b s1 ex_post = Some s /\ fidx s = 1 /\ st s 1 = Unconfirmed /\ cs s 1 = None /\
+                  finished s = false.
+Proof.
+  destruct (run_trace ex_b init ex_pre) as [s0|] eqn:E0; [|vm_compute in E0; discriminate].
+  destruct (step ex_b s0 (VBegin 1 1 3)) as [s1|] eqn:E1.
+  2:{ revert E1. vm_compute in E0. inversion E0; subst. vm_compute. discriminate. }
+  destruct (run_trace ex_b s1 ex_post) as [s|] eqn:E2.
+  2:{ revert E2. vm_compute in E0. inversion E0; subst. vm_compute in E1. inversion E1; subst. vm_compute. discriminate. }
+  exists s0, s1, s. vm_compute in E0. inversion E0; subst. vm_compute in E1. inversion E1; subst.
+  vm_compute in E2. inversion E2; subst. repeat split; reflexivity.
+Qed.
+
 Print Assumptions C05_boundaries_ordered_partial.
+Print Assumptions C05_head_validation_is_finalisable_partial.
 Print Assumptions C05_head_attempt_is_never_invalidated_partial.
 Print Assumptions C05_no_critical_section_on_final_partial.
